@@ -27,10 +27,14 @@ FLOORS = {"nontrivial": 0.12, "relaxed": 0.3, "ref-followed": 0.2}
 
 @st.composite
 def cases(draw):
-    g = draw(gg.consistent())
+    with_or = draw(st.integers(0, 2)) == 0
+    g = draw(gg.consistent(multi_typed_ranges=with_or and draw(st.booleans())))
     cfg = {"keep_less_specific": True, "all_instances_are_compliant_mode": True, "instances_report_mode": "mixed"}
     for name in ("allow_opt_cardinality", "disable_exact_cardinality", "discard_useless_constraints_with_positive_closure", "inverse_paths"):
         cfg[name] = draw(st.booleans())
+    if with_or:
+        cfg["disable_or_statements"] = False        # disjunctions ('p @:A OR @:B') instead of one merged constraint
+        cfg["allow_redundant_or"] = draw(st.booleans())
     target = draw(common.target_spec(g, p_all=0.6))
     return {"g": g, "cfg": cfg, "target": target, "thr": 0}
 
@@ -78,6 +82,10 @@ def check(case):
         # pinned input outside the strict domain (one of the three root causes named in the property): identified by
         # this specific input, never generated
         return known(case["outside_kf"], str(sorted(bad.items())[0])[:300], labels | {"outside-strict-domain"}, nt)
+    if bad and cfg.get("disable_or_statements") is False:
+        kf = _or_cardinality_finding(doc, triples, sel, label_of, pairs)
+        if kf:
+            return known("C03-ORCARD", kf, labels | {"or-statements"}, nt)
     if bad:
         k = sorted(bad)[0]
         return violation("instance %s does not conform to %s: %s\n--- graph ---\n%s--- output ---\n%s" % (k[0], k[1], bad[k][:3], kw["raw_graph"], text), labels, nt)
@@ -117,7 +125,7 @@ def check(case):
             if e["card"] in ("?", "*"):
                 # original cardinality = the first comment the mode inserted
                 first = e["facts"][0] if e["facts"] else None
-                orig = first[1] if first else None
+                orig = oracle.card_norm(first[1]) if first else None      # (facts of disjunctions keep the raw spelling)
                 if orig is not None and cfg.get("disable_exact_cardinality") and orig.isdigit() and int(orig) > 1:
                     orig = "+"      # the mode-off run generalises the exact cardinality afterwards
                 if orig is None or oracle.card_norm(eo["card"]) != orig:
@@ -125,6 +133,61 @@ def check(case):
             elif e["card"] != eo["card"]:
                 return violation("%s %s: cardinality %s with the mode on, %s with it off\n--- on ---\n%s\n--- off ---\n%s" % (lab, key, e["card"], eo["card"], text, t2), labels, nt)
     return ok(labels, nt)
+
+
+def _or_cardinality_finding(doc, triples, sel, label_of, pairs):
+    """C03-ORCARD (disable_or_statements=False only): a disjunction 'p @:A OR @:B' is printed with the cardinality of ONE of its
+    alternatives, although an instance can have a different number of values per alternative (a neighbour that is an instance of
+    A and of B counts for both, another one only for B).  Signature: some instance of the shape has, for that disjunction, a
+    number of matching values outside the printed cardinality AND per-alternative match counts that are not all equal to that
+    number.  The case is excused only if, with exactly those disjunctions relaxed to '*', every instance conforms."""
+    members = {}
+    for S, nodes in sel.items():
+        members[label_of[S]] = set(nodes)
+    out, inc = {}, {}
+    for s_, p_, o_ in triples:
+        out.setdefault(s_[1], []).append((p_, o_))
+        if o_[0] != "lit":
+            inc.setdefault(o_[1], []).append((p_, s_))
+
+    def amatch(v, x):
+        if v[0] == "ref":
+            return x[0] != "lit" and x[1] in members.get(v[1], ())
+        if v[0] == "kind":
+            return x[0] != "lit" and (v[1] in ("NONLITERAL", ".") or (v[1] == "IRI") == (x[0] == "iri"))
+        if v[0] == "datatype":
+            return x[0] == "lit" and x[2] == v[1]
+        if v[0] == "valueset":
+            return x[0] != "lit" and x[1] in v[1]
+        return False
+    flagged = []
+    for sh in doc.shapes:
+        for c in sh.constraints:
+            if len(c.values) < 2:
+                continue
+            for n in members.get(sh.label, ()):
+                vals = [x for q, x in (inc.get(n, []) if c.inverse else out.get(n, [])) if q == c.pred]
+                per = [sum(1 for x in vals if amatch(v, x)) for v in c.values]
+                N = sum(1 for x in vals if any(amatch(v, x) for v in c.values))
+                lo, hi = c.card
+                if (N < lo or (hi is not None and N > hi)) and any(k != N for k in per):
+                    flagged.append((sh.label, c, n, N, per))
+                    break
+    if not flagged:
+        return None
+    saved = [(c, c.card, c.card_txt) for _, c, _, _, _ in flagged]
+    try:
+        for c, _, _ in saved:
+            c.card, c.card_txt = (0, None), "*"
+        res = shexval.validate(doc, triples, pairs)
+    finally:
+        for c, card, txt in saved:
+            c.card, c.card_txt = card, txt
+    if any(v for v in res.values()):
+        return None
+    lab, c, n, N, per = flagged[0]
+    return "%s %s%s printed with cardinality %s; instance %s has %d matching values (per alternative %s)" % (
+        lab, "^" if c.inverse else "", c.pred, c.card_txt or "{1}", n, N, per)
 
 
 def enumerate_cases(tier):
